@@ -26,9 +26,24 @@ def install_psutil(state):
     psutil.virtual_memory = lambda: VM()
 
 
+def decoy_cache(n):
+    """another cached dataset alive in the same process, with the SAME key names at other positions and other
+    examples, whose keys were all looked up: every cache answers from its own dataset"""
+    with warnings.catch_warnings():
+        warnings.simplefilter('ignore')
+        d = lazy_dataset.new({f'k{j}': -1 - j for j in reversed(range(n + 1))}).map(lambda x: x).cache()
+        for j in range(n + 1):
+            try:
+                d[f'k{j}']
+            except Exception:  # noqa  (the decoy is scenery; the dataset under test is judged)
+                pass
+    return d
+
+
 def run_history(n, ops, keyed=False):
     """execute a history on the real CacheDataset; returns outputs, upstream call counts"""
     common.gc_point()
+    decoy = decoy_cache(n) if keyed else None
     state = {'mem': True, 'asked': 0}
     install_psutil(state)
     counts = [0] * n
@@ -173,6 +188,7 @@ def real_paths(rng):
     n = rng.randint(1, 7)
     counts = [0] * n
     mutable = rng.random() < 0.5
+    decoy = decoy_cache(n)
 
     def mk(x, c=0):
         return {'v': x * 1000 + c, 'h': [x], 'd': {'x': (x,)}} if mutable else x * 1000 + c
@@ -191,32 +207,36 @@ def real_paths(rng):
             steps.append(how)
             full = [mk(j) for j in range(n)]
             want = full
-            if how == 'iter':
-                out = list(ds)
-            elif how == 'slice':
-                a = rng.randint(0, n)
-                out, want = list(ds[a:]), full[a:]
-            elif how == 'rslice':
-                out, want = list(ds[::-1]), full[::-1]
-            elif how == 'key':
-                j = rng.randrange(n)
-                out, want = [ds[f'k{j}']], [full[j]]
-            elif how == 'neg':
-                j = rng.randint(1, n)
-                out, want = [ds[-j]], [full[-j]]
-            elif how == 'int':
-                j = rng.randrange(n)
-                out, want = [ds[j]], [full[j]]
-            elif how == 'copy':
-                out = list(ds.copy(freeze=rng.random() < 0.5))
-            elif how == 'prefetch1':
-                out = list(ds.prefetch(1, 2))
-            elif how == 'prefetch2':
-                out = list(ds.prefetch(2, 3))
-            else:
-                out = [v for _, v in ds.items()]
-                if [k for k, _ in ds.items()] != [f'k{j}' for j in range(n)]:
-                    fails.append(('items_keys_order', {'steps': steps}))
+            try:
+                if how == 'iter':
+                    out = list(ds)
+                elif how == 'slice':
+                    a = rng.randint(0, n)
+                    out, want = list(ds[a:]), full[a:]
+                elif how == 'rslice':
+                    out, want = list(ds[::-1]), full[::-1]
+                elif how == 'key':
+                    j = rng.randrange(n)
+                    out, want = [ds[f'k{j}']], [full[j]]
+                elif how == 'neg':
+                    j = rng.randint(1, n)
+                    out, want = [ds[-j]], [full[-j]]
+                elif how == 'int':
+                    j = rng.randrange(n)
+                    out, want = [ds[j]], [full[j]]
+                elif how == 'copy':
+                    out = list(ds.copy(freeze=rng.random() < 0.5))
+                elif how == 'prefetch1':
+                    out = list(ds.prefetch(1, 2))
+                elif how == 'prefetch2':
+                    out = list(ds.prefetch(2, 3))
+                else:
+                    out = [v for _, v in ds.items()]
+                    if [k for k, _ in ds.items()] != [f'k{j}' for j in range(n)]:
+                        fails.append(('items_keys_order', {'steps': steps}))
+            except Exception as e:  # noqa   (no access path of a cache over a healthy pipeline raises)
+                fails.append(('access_path_raises', {'path': how, 'steps': steps[:], 'n': n, 'error': repr(e)[:200]}))
+                break
             if out != want:
                 fails.append(('access_path_not_transparent', {'path': how, 'steps': steps[:], 'mutable_examples': mutable, 'got': repr(out), 'want': repr(want)}))
             got += [(o['v'] if mutable else o) for o in out if (isinstance(o, dict) and isinstance(o.get('v'), int)) or isinstance(o, int)]
